@@ -30,6 +30,9 @@ import subprocess
 import sys
 import tempfile
 from dataclasses import dataclass, field
+
+sys.path.insert(0, os.path.dirname(os.path.dirname(os.path.abspath(__file__))))
+from pyvc import proc as _proc  # noqa: E402
 from typing import Dict, List, Optional, Tuple
 
 VENV_PY = "/venv/bin/python"
@@ -177,7 +180,7 @@ def run_plugin_ex(
         cmd += ["--descriptor_set_out=" + ds, "--include_imports"]
     cmd += sorted(named) if named else sorted(protos)
     try:
-        cp = subprocess.run(cmd, cwd=cwd, env=env, capture_output=True, text=True, timeout=timeout)
+        cp = _proc.run(cmd, cwd=cwd, env=env, timeout=timeout)
         rc, err = cp.returncode, (cp.stdout or "") + (cp.stderr or "")
     except subprocess.TimeoutExpired as e:  # pragma: no cover
         rc, err = -9, "TIMEOUT " + str(e)
@@ -185,7 +188,8 @@ def run_plugin_ex(
     if rc != 0:
         # protoc's own diagnostics look like "file.proto:LINE:COL: message" or
         # "file.proto: message"; plugin failures are reported as "--python_betterproto_out: ..."
-        rejected = "--python_betterproto_out" not in err and "Traceback" not in err
+        # (a plugin that does not finish is a plugin failure, not a schema protoc refused)
+        rejected = "--python_betterproto_out" not in err and "Traceback" not in err and not err.startswith("TIMEOUT")
     return PluginResult(
         ok=(rc == 0),
         scratch=scratch,
@@ -216,14 +220,7 @@ def run_child(mode: str, out_dir: str, spec: dict, timeout: float = 240.0) -> di
     env["PYVC_SRC"] = repo_src()
     env.pop("PYTHONPATH", None)
     try:
-        cp = subprocess.run(
-            [VENV_PY, CHILD, mode, out_dir, spec_path],
-            env=env,
-            capture_output=True,
-            text=True,
-            timeout=timeout,
-            cwd=os.path.dirname(out_dir),
-        )
+        cp = _proc.run([VENV_PY, CHILD, mode, out_dir, spec_path], env=env, timeout=timeout, cwd=os.path.dirname(out_dir))
     except subprocess.TimeoutExpired:
         return {"child_error": "timeout after %ss" % timeout}
     if cp.stderr.strip():
@@ -1075,9 +1072,15 @@ def edge_schemas() -> List[Tuple[str, Schema]]:
     E = lambda *path: TypeRef("enum", "", fc, tuple(path))
     S("feature-cover", fc,
       imports=[WKT_FILE["Timestamp"], WKT_FILE["Duration"], WKT_FILE["Int32Value"], WKT_FILE["Empty"]],
-      enums=[Enum("Color", [("COLOR_UNSPECIFIED", 0), ("COLOR_RED", 1), ("COLOR_NEG", -3)])],
+      enums=[Enum("Color", [("COLOR_UNSPECIFIED", 0), ("COLOR_RED", 1), ("COLOR_NEG", -3)]),
+             Enum("OnNone", [("ON_NONE_IGNORE", 0), ("ON_NONE_FAIL", 1)])],       # type names that END in words the typing compilers emit
       msgs=[
           Message("Leaf", [Field("n", 1, scalar("int32")), Field("s", 2, scalar("string"))]),
+          Message("AuthNone", [Field("token", 1, scalar("string"))]),
+          Message("NoneHolder", [Field("o_on_none", 1, E("OnNone"), "optional"), Field("o_auth_none", 2, R("AuthNone"), "optional"),
+                                 Field("c_on_none", 3, E("OnNone"), oneof="pick"), Field("c_auth_none", 4, R("AuthNone"), oneof="pick"),
+                                 Field("r_on_none", 5, E("OnNone"), "repeated"), Field("m_auth_none", 6, R("AuthNone"), "map", map_key="string"),
+                                 Field("plain_on_none", 7, E("OnNone"))]),
           Message("Tree", [Field("kids", 1, R("Tree"), "repeated"), Field("parent", 2, R("Tree")), Field("leaf", 3, R("Leaf"))]),
           Message("Cover", [
               Field("ow_i32", 1, wkt("Int32Value"), "optional"), Field("ow_str", 2, wkt("StringValue"), "optional"),
@@ -1300,6 +1303,8 @@ STYLE_NAMES = {
     "pascal": {"Target": "Target", "Inner": "Inner", "Color": "Color", "Kind": "Kind"},
     "capitalized": {"Target": "Target", "Inner": "Inner", "Color": "Color", "Kind": "Kind"},
     "lower": {"Target": "target", "Inner": "inner", "Color": "color", "Kind": "kind"},
+    # lowerCamel / underscore-first names: an upper-case letter inside, but not at the start of, the type name
+    "camel": {"Target": "geoTarget", "Inner": "x2Inner", "Color": "rgbColor", "Kind": "_Kind"},
 }
 
 
